@@ -52,8 +52,8 @@ theorem Dyn.cond {K : SCtx} {k : Ctx} {sub : Bool} {s : St} (h : Dyn K k sub s) 
     fun hne => h.inl ((headFalse_ne_nil K.tl).1 hne)⟩
 
 /-- Back from a condition: `noErrExit` is restored. -/
-theorem Dyn.uncond {K : SCtx} {k : Ctx} {sub : Bool} {s s1 : St} (h0 : Dyn K k sub s)
-    (h : Dyn (condK K) { k with ign := true } sub s1) :
+theorem Dyn.uncond {K : SCtx} {k k' : Ctx} {sub : Bool} {s s1 : St} (h0 : Dyn K k sub s)
+    (h : Dyn (condK K) k' sub s1) :
     Dyn K k sub { s1 with noErrExit := s.noErrExit } :=
   ⟨h.cerr, h.csub, h.fok, h.ht, h0.eign, h.noe, h.sfn,
     fun hne => h.inl ((headFalse_ne_nil K.tl).2 hne)⟩
@@ -63,9 +63,9 @@ theorem Frame.uncond {s s1 : St} (h : Frame { s with noErrExit := true } s1) :
   ⟨rfl, h.il, h.inf⟩
 
 /-- An abnormal completion of a condition, seen from the enclosing command. -/
-theorem Post.uncond {K : SCtx} {k : Ctx} {sub : Bool} {le q q' : Prop} {s s1 : St} {fl : Flow}
+theorem Post.uncond {K : SCtx} {k k' : Ctx} {sub : Bool} {le q q' : Prop} {s s1 : St} {fl : Flow}
     {e1 : Env} (h0 : Dyn K k sub s)
-    (h : Post (condK K) { k with ign := true } sub le q { s with noErrExit := true } s1 fl e1)
+    (h : Post (condK K) k' sub le q { s with noErrExit := true } s1 fl e1)
     (hfl : fl ≠ .norm) :
     Post K k sub False q' s { s1 with noErrExit := s.noErrExit } fl e1 := by
   cases fl with
